@@ -300,6 +300,12 @@ ReuseVerdict(c) ==
            THEN (IF x.reused.b # x.fresh.b THEN <<"C17:reused encoder writes different bytes than a fresh one">> ELSE <<>>)
            ELSE (IF NormEvs(x.reused.ev) # NormEvs(x.fresh.ev) THEN <<"C17:reused parser/decoder reports different events than a fresh one">> ELSE <<>>)
       ELSE <<>>)
+  \* json.Parser.Parse re-initialises the parser, so the one-shot entry point is independent of what the instance
+  \* saw before - also of a document that FAILED (a long-lived parser fed one text per call, some malformed)
+  \o (IF c.outcome = "ok" /\ x.histerr # "" /\ c.fmt = "json" /\ c.sub.component = "parser" /\ c.sub.mode = "parse"
+         /\ "afterfail" \in DOMAIN c.sub /\ "ev" \in DOMAIN x.reused
+         /\ (x.reused.err # x.fresh.err \/ NormEvs(x.reused.ev) # NormEvs(x.fresh.ev))
+      THEN <<"C04:a valid text is not read with its value by Parse on a parser whose previous Parse failed">> ELSE <<>>)
 
 \* ---- kind "fold" (C12, C09) ----------------------------------------------------------
 (* extra.T / extra.v: type and value as projected by reflection from the   *)
